@@ -106,6 +106,7 @@ def cosim(design, vectors, sequential, top_name=None, text=None, stop_on_x=True)
         out.status = 'indeterminate'
         out.detail = str(e)
         return out
+    out.interp = it
     mi = d.mods[top]
     inmap = {}
     for w in design.ins:
@@ -241,3 +242,76 @@ def gen_control_vectors(ins, rnd, n):
                 v[w.name] = rnd.getrandbits(ww) if r < 0.7 else rnd.choice([0, 1, (1 << ww) - 1, 1 << (ww - 1)])
         vecs.append(v)
     return vecs
+
+
+def localise(design, it):
+    """After a mismatch: compare every internal net that exists on both sides and name the blocks whose inputs all agree
+    but whose output differs (the places where simulator and emitted text part ways).
+    Returns list of dicts(block=<class name>, inst=<path>, net=<verilog path>, simulator=, verilog=)."""
+    import py4hw
+    import py4hw.rtl_generation as rg
+    gen = py4hw.VerilogGenerator(design.dut)
+    culprits = []
+
+    def net_value(scope_path, obj, wire):
+        """value of `wire` as named in the scope of structural object obj, or None"""
+        try:
+            rg.clearWireNamesCache()
+            names = rg.getWireNames(obj)
+        except Exception:
+            return None
+        n = names.get(wire)
+        if n is None:
+            return None
+        sc = it.top
+        try:
+            for p in scope_path:
+                sc = sc.children[p]
+        except KeyError:
+            return None
+        if n in sc.vals:
+            return sc.vals[n]
+        if 'reserved_' + n in sc.vals:
+            return sc.vals['reserved_' + n]
+        return None
+
+    def walk(obj, path):
+        for name, c in obj.children.items():
+            ins_ok = True
+            any_in = False
+            for p in c.inPorts:
+                if p.wire is None:
+                    continue
+                v = net_value(path, obj, p.wire)
+                if v is None:
+                    continue
+                any_in = True
+                if v != p.wire.get():
+                    ins_ok = False
+            bad_out = None
+            for p in c.outPorts:
+                if p.wire is None:
+                    continue
+                v = net_value(path, obj, p.wire)
+                if v is not None and v != p.wire.get():
+                    bad_out = (p, v)
+            if bad_out is not None and ins_ok:
+                if gen.isInlinable(c) or not c.children:
+                    culprits.append(dict(block=type(c).__name__, inst='/'.join(path + [name]), port=bad_out[0].name,
+                                         simulator=bad_out[0].wire.get(), verilog=bad_out[1],
+                                         inputs={p.name: p.wire.get() for p in c.inPorts if p.wire is not None},
+                                         widths={p.name: p.wire.getWidth() for p in list(c.inPorts) + list(c.outPorts) if p.wire is not None}))
+                    continue
+            if c.children and not gen.isInlinable(c):
+                # descend: the instance scope in the interpreter is i_<name>
+                walk(c, path + ['i_' + name])
+                if bad_out is not None and ins_ok and not any(x['inst'].startswith('/'.join(path + [name])) for x in culprits):
+                    culprits.append(dict(block=type(c).__name__, inst='/'.join(path + [name]), port=bad_out[0].name,
+                                         simulator=bad_out[0].wire.get(), verilog=bad_out[1], note='no inner culprit found',
+                                         inputs={p.name: p.wire.get() for p in c.inPorts if p.wire is not None},
+                                         widths={p.name: p.wire.getWidth() for p in list(c.inPorts) + list(c.outPorts) if p.wire is not None}))
+    try:
+        walk(design.dut, [])
+    finally:
+        rg.clearWireNamesCache()
+    return culprits
